@@ -11,6 +11,7 @@ import (
 	"io"
 	"log"
 	"os"
+	"runtime/debug"
 	"testing"
 
 	"verif/opseq"
@@ -22,6 +23,9 @@ func TestCheck(t *testing.T) {
 	if os.Getenv("VERIF_VERBOSE") == "" {
 		log.SetOutput(io.Discard)
 	}
+	// every leveldb open allocates a 4 MiB write buffer; at hundreds of opens
+	// per second the collector otherwise lets the heap run to many GB
+	debug.SetMemoryLimit(6 << 30) // safety net only; a tight limit makes the scavenger thrash
 	res := vk.New("C10")
 	res.Rule = "E2 opseq: every sequence of Set/Delete/Batch/Flush/Close+reopen over the stated key/value alphabet per implementation, either as canonical-state graph search (state = reference map, for the buffer plus the dump of both layers; every operation applied in every reachable state) or as un-deduplicated history tree to the depth bound; each history runs on a fresh store made by sorted.NewKeyValue / buffer.New; a case is distinct when it reaches a distinct canonical state (graph) or is a distinct history (tree)"
 	res.Assumptions = []string{
